@@ -71,7 +71,7 @@ def neighbours(t):
     m, s_, c_ = t
     out = [(m, s2, c_) for s2 in SVS + [s_ + 1] if s2 != s_]
     out += [(m, s_, c2) for c2 in CVS + [c_ + 1] if c2 != c_]
-    for i in (0, 3, 5):
+    for i in range(6):        # every MAC byte
         out.append((m[:2 * i] + "%02x" % (int(m[2 * i:2 * i + 2], 16) ^ 0x10) + m[2 * i + 2:], s_, c_))
     return out
 
@@ -117,6 +117,28 @@ def gen_sq(rng, tier):
             o = others[0]
             st += ["L/%d" % (60 * S1), "G/" + tup(o), v("g1", o), v("g1", me), v("g0", o), v("g0", me)]
             cases.append("sq %d %s" % (ttl_s * S1, " ".join(st)))
+    # systematic single-field block: a cookie issued for tuple T must be refused for T with EXACTLY one field changed:
+    # every MAC byte (low bit, high bit, 0x7f), both VLAN tags (low / high byte, +1, to 0), and with every cookie byte
+    # changed (that covers the timestamp wherever the layout puts it)
+    for T0 in [("020000aa0001", 100, 10), ("fe12345678ab", 4094, 1), ("020000aa0001", 0, 0)]:
+        m0, s0, c0 = T0
+        st = ["G/" + tup(T0), v("g0", T0)]
+        for i in range(6):
+            for mask in (0x01, 0x80, 0x7f):
+                st.append(v("g0", (m0[:2 * i] + "%02x" % (int(m0[2 * i:2 * i + 2], 16) ^ mask) + m0[2 * i + 2:], s0, c0)))
+        for d in (1, 0x100, 0x8000, 0x00ff):
+            st.append(v("g0", (m0, s0 ^ d, c0)))
+            st.append(v("g0", (m0, s0, c0 ^ d)))
+        st += [v("g0", (m0, (s0 + 1) & 0xffff, c0)), v("g0", (m0, s0, (c0 + 1) & 0xffff)), v("g0", (m0, c0, s0))]
+        if s0:
+            st.append(v("g0", (m0, 0, c0)))
+        if c0:
+            st.append(v("g0", (m0, s0, 0)))
+        for i in range(40):
+            for mask in (0x01, 0x80):
+                st.append(v("g0", T0, "x%d.%d" % (i, mask)))
+        st.append(v("g0", T0))
+        cases.append("sq %d %s" % (60 * S1, " ".join(st)))
     for t in T:
         o = B if t != B else A
         cases.append("sq %d %s" % (60 * S1, " ".join([
@@ -417,6 +439,18 @@ def gen_tb_hasync(rng, tier):
     return cases
 
 
+def gen_tb_fieldblock(rng, tier):
+    """PADR level: a cookie the BNG issued for T (real PADI -> PADO) presented by T with exactly one field changed"""
+    cases = []
+    for T0 in [("020000aa0001", 100, 10), ("020000bb0002", 0, 0)]:
+        ops = ["I/" + tup(T0)]
+        for n in neighbours(T0):
+            ops.append("R/%s/s,cP:id" % tup(n))
+        ops += ["R/%s/s,cP:id" % tup(T0)]
+        cases.append("tb 60 G=0-4094 occ=- next=- ; " + " ".join(ops))
+    return cases
+
+
 def gen_tb_teardown(rng, tier):
     """every teardown path frees exactly the id of the session it ends: PADT, dead peer, AAA reject (A), dataplane add
     failure (F), also when the failure arrives late (session already gone, id re-used by another subscriber)"""
@@ -503,7 +537,7 @@ def gen_cases(rng, tier, budget):
     n = (budget or 700) if tier == "quick" else (budget or 12000)
     for _ in range(n):
         cases.append(gen_tb_one(rng, ttl=rng.choice([60, 60, 60, 5])))
-    cases += gen_directed() + gen_tb_collide(rng, tier) + gen_tb_hasync(rng, tier) + gen_tb_teardown(rng, tier) + gen_tb_race(rng, tier) + gen_tb_attr(rng, tier)
+    cases += gen_directed() + gen_tb_collide(rng, tier) + gen_tb_hasync(rng, tier) + gen_tb_fieldblock(rng, tier) + gen_tb_teardown(rng, tier) + gen_tb_race(rng, tier) + gen_tb_attr(rng, tier)
     # quick: one history with 65535 sessions (last id taken -> id space full -> freed -> two PADRs race for it)
     cases += FULLSCALE[1:]
     if tier == "thorough":
@@ -557,6 +591,11 @@ def classify(case, impl, model):
                 # a second teardown of an object that is already torn down: it cannot touch sidIndex / sessions
                 # (C04_stale_teardown_noop); the repeated Released event is not this property's subject
                 return "G", txt + " (late dataplane failure handled again: outside this property, correspondence only)"
+            if kind_ == "P" and x.split("/p")[0] == y.split("/p")[0] and "/p" in x:
+                # same ids, the reservation probe differs: while a PADR handler waited to index, another one was inside
+                # the allocator / sidMu was free (or the probe could not settle): allocation and indexing are not one
+                # critical section, so the forced overlap was not achieved and the last-free-id race is not excluded
+                return "G", txt + " (overlap-not-forced: the id is not reserved between allocation and indexing)"
             if y == "INADMISSIBLE":
                 # which id a PADR gets is free; the model rejected the implementation's answer.  An id that is 0,
                 # in use or handed out twice violates the property; creating NOTHING although an id is free does not
